@@ -20,7 +20,7 @@ RULES = {
           "no store through type(self)/a base); the settings are stored only by their own accessors and set_render_method (who-may-write)",
     "R3": "getters follow the MRO: getattr(self, '_jpeg_quality', -1), getattr(self, '_read_from_file', True), self._render_method; "
           "at render time the effective method is `(method or self._render_method).lower()` (per-call override first, "
-          "case-normalised as a whole) in every graphics renderer; shared with C09.R5: ImageIterator never rebinds the style arguments frames are rendered with",
+          "case-normalised as a whole) in every graphics renderer; shared with C09.R5: ImageIterator never rebinds the style arguments frames are rendered with; every comparison with LINES / WHOLE / ANIM in a renderer uses the effective method, never the per-call `method` alone",
     "R4": "class-only settings are read-only on instances: the instance-side forced_support / native_anim_max_bytes are "
           "ClassProperty objects built with a getter only; the metaclass setters validate before storing",
     "R5": "native_anim_max_bytes is one global cell: all accessors read/write __class__._native_anim_max_bytes on the metaclass, "
@@ -186,6 +186,17 @@ def run(ck, m):
                 ck.ob("R3", asg, whole_lower or (reads_effective and writers_lower and "type(self)" not in norm(v) and "__class__" not in norm(v)),
                       f"the render method used must be `(method or self._render_method).lower()`: per-call override first, then the effective "
                       f"(instance -> class -> default) value, case-normalised as a whole; found `{norm(v)}`", stmt=f"{q}: {short(asg, 90)}")
+                # ... and it is the effective method that is compared with LINES / WHOLE / ANIM everywhere in the renderer: a dispatch on the per-call
+                # `method` alone ignores a method set on the instance, its class or an ancestor
+                for cmp_ in [x for x in body_walk(fn) if isinstance(x, ast.Compare) and len(x.ops) == 1]:
+                    sides = [cmp_.left, cmp_.comparators[0]]
+                    if not any(isinstance(s_, (ast.Name, ast.Attribute)) and (dotted(s_) or "").split(".")[-1] in ("LINES", "WHOLE", "ANIM") for s_ in sides):
+                        continue
+                    for s_ in sides:
+                        ts_ = norm(trace(fn, s_, use=cmp_, keep=("method",)))
+                        if "method" in ts_.replace("_render_method", "").replace("render_method", "") and "_render_method" not in ts_:
+                            ck.ob("R3", enclosing_stmt(cmp_), False, f"{q}: `{short(cmp_, 60)}` dispatches on the per-call `method` argument alone (`{ts_[:50]}`): a render method that is merely *effective* "
+                                  "(set on the instance, its class or an ancestor) is ignored on this path", stmt=f"{q}: method dispatch uses the effective method: {short(cmp_, 40)}")
     ck.expect(n_r >= 2, "expected >= 2 graphics renderers reading the render method")
     # class-body defaults
     for rel, cname in ((KT, "KittyImage"), (IT, "ITerm2Image")):
